@@ -4,6 +4,7 @@ package main
 
 import (
 	"fmt"
+	"strings"
 	"go/token"
 	"sort"
 
@@ -301,6 +302,22 @@ func c15Complete(c *Ctx, scope []*ssa.Function) {
 	if n < 4 {
 		c.Undecided("G-C15-complete", "handshake closure", "functions that mark completion", fmt.Sprintf("only %d found", n), token.NoPos)
 	}
+	// the flights themselves: methods of the handshake state types
+	for _, f := range scope {
+		recv := f.Signature.Recv()
+		if recv == nil {
+			continue
+		}
+		rt := recv.Type().String()
+		if !strings.HasSuffix(rt, "HandshakeState") && !strings.HasSuffix(rt, "HandshakeStateGM") {
+			continue
+		}
+		spec, has := defaultResultSpec(f)
+		if !has || spec.kind != "error" {
+			continue
+		}
+		c15Errors(c, f, spec)
+	}
 }
 
 var c15DropOK = map[string]string{
@@ -348,6 +365,31 @@ func c15Errors(c *Ctx, f *ssa.Function, spec resultSpec) {
 				}
 			}
 		}
+		if !used && res.Len() > 1 {
+			// every result dropped: nothing the handshake goes on to use comes from this call
+			anyUsed := false
+			for _, u := range *call.Referrers() {
+				if ex, ok := u.(*ssa.Extract); ok {
+					for _, u2 := range *ex.Referrers() {
+						if _, isDbg := u2.(*ssa.DebugRef); !isDbg {
+							anyUsed = true
+						}
+					}
+				}
+			}
+			if !anyUsed {
+				c.Holds("G-C15-err", fname(f), construct, "no result of the call is used: it is not a step the handshake depends on", call.Pos())
+				continue
+			}
+		}
+		if !used && neverFails(sc) {
+			c.Holds("G-C15-err", fname(f), construct, "the callee returns a nil error on every path", call.Pos())
+			continue
+		}
+		if !used && name == "(*gmtls.Conn).readRecord" && stickyErrChecked(call) {
+			c.Holds("G-C15-err", fname(f), construct, "the sticky read error c.in.err, which readRecord sets on every failure, is tested right after the call", call.Pos())
+			continue
+		}
 		if !used {
 			if why, ok := c15DropOK[name]; ok {
 				c.Holds("G-C15-err", fname(f), construct, "dropped by design: "+why, call.Pos())
@@ -380,7 +422,142 @@ func c15Errors(c *Ctx, f *ssa.Function, spec resultSpec) {
 			c.Holds("G-C15-err", fname(f), construct, "returned to the caller", call.Pos())
 			continue
 		}
-		g := evalReject(c.P, f, errCheckAtomsPhi(f, func(cl *ssa.Call) bool { return cl == call }, "step error"), spec)
-		c.Check(g.OK, "G-C15-err", fname(f), construct, g.Why, "a failing handshake step must abort the handshake: "+g.Why, call.Pos())
+		where := nonNilReachesSuccess(c.P, f, call, errv, spec)
+		c.Check(where == "", "G-C15-err", fname(f), construct, "no path on which this error is non-nil reaches a successful return", "a failing handshake step must abort the handshake: with this error non-nil "+where, call.Pos())
 	}
+}
+
+// neverFails: every return of f carries the constant nil as its error result
+func neverFails(f *ssa.Function) bool {
+	if f == nil || f.Blocks == nil {
+		return false
+	}
+	n := 0
+	for _, b := range f.Blocks {
+		ret, ok := b.Instrs[len(b.Instrs)-1].(*ssa.Return)
+		if !ok {
+			continue
+		}
+		n++
+		last := unspill(ret.Results[len(ret.Results)-1])
+		if !isNilConst(last) {
+			return false
+		}
+	}
+	return n > 0
+}
+
+// stickyErrChecked: the block of the call ends with `if c.in.err != nil` (the half-connection's sticky error)
+func stickyErrChecked(call *ssa.Call) bool {
+	ifi, ok := lastIf(call.Block())
+	if !ok {
+		return false
+	}
+	bo, ok := ifi.Cond.(*ssa.BinOp)
+	if !ok || bo.Op != token.NEQ || !isNilConst(bo.Y) {
+		return false
+	}
+	ld, ok := bo.X.(*ssa.UnOp)
+	if !ok || ld.Op != token.MUL {
+		return false
+	}
+	fa, ok := ld.X.(*ssa.FieldAddr)
+	if !ok || fieldName(fa.X.Type(), fa.Field) != "err" {
+		return false
+	}
+	fa2, ok := fa.X.(*ssa.FieldAddr)
+	if !ok || fieldName(fa2.X.Type(), fa2.Field) != "in" {
+		return false
+	}
+	// the load must come after the call
+	return instrIndex(ld) > instrIndex(call)
+}
+
+// nonNilReachesSuccess: explores the paths after the call on which its error result E is non-nil. Values known to
+// equal E are tracked through phis; a test of such a value only continues along its non-nil edge. Returns a
+// description of a successful return reached on such a path, or "".
+func nonNilReachesSuccess(p *Prog, f *ssa.Function, call *ssa.Call, E ssa.Value, spec resultSpec) string {
+	type state struct {
+		b   *ssa.BasicBlock
+		key string
+	}
+	seen := map[state]bool{}
+	var res string
+	keyOf := func(set map[ssa.Value]bool) string {
+		var names []string
+		for v := range set {
+			names = append(names, v.Name())
+		}
+		sort.Strings(names)
+		return strings.Join(names, ",")
+	}
+	var walk func(b *ssa.BasicBlock, from *ssa.BasicBlock, set map[ssa.Value]bool, startIdx int)
+	walk = func(b *ssa.BasicBlock, from *ssa.BasicBlock, set map[ssa.Value]bool, startIdx int) {
+		if res != "" {
+			return
+		}
+		// phis
+		if from != nil {
+			ns := map[ssa.Value]bool{}
+			for v := range set {
+				ns[v] = true
+			}
+			for _, phi := range phisOf(b) {
+				delete(ns, phi)
+				for i, pr := range b.Preds {
+					if pr == from && set[phi.Edges[i]] {
+						ns[phi] = true
+					}
+				}
+			}
+			set = ns
+			st := state{b, keyOf(set)}
+			if seen[st] {
+				return
+			}
+			seen[st] = true
+		}
+		// re-executing the call starts a new instance of E
+		for i := startIdx; i < len(b.Instrs); i++ {
+			if b.Instrs[i] == ssa.Instruction(call) && i >= startIdx && from != nil {
+				return
+			}
+		}
+		last := b.Instrs[len(b.Instrs)-1]
+		switch x := last.(type) {
+		case *ssa.Return:
+			if spec.idx < len(x.Results) {
+				r := unspill(x.Results[spec.idx])
+				if set[r] || failingValue(r, spec, b, from) {
+					return
+				}
+				// a wrapper around a known-failing value: fail(err), setErrorLocked(err)
+				if cl, ok := r.(*ssa.Call); ok {
+					for _, a := range cl.Call.Args {
+						if set[a] {
+							return
+						}
+					}
+				}
+			}
+			res = "a successful return at " + p.pos(x.Pos()) + " is reachable"
+			return
+		case *ssa.If:
+			if bo, ok := x.Cond.(*ssa.BinOp); ok && (bo.Op == token.NEQ || bo.Op == token.EQL) && isNilConst(bo.Y) && set[bo.X] {
+				if bo.Op == token.NEQ {
+					walk(b.Succs[0], b, set, 0)
+				} else {
+					walk(b.Succs[1], b, set, 0)
+				}
+				return
+			}
+		case *ssa.Panic:
+			return
+		}
+		for _, s := range b.Succs {
+			walk(s, b, set, 0)
+		}
+	}
+	walk(call.Block(), nil, map[ssa.Value]bool{E: true}, instrIndex(call)+1)
+	return res
 }
